@@ -237,67 +237,63 @@ fn span_is(x: &[u8], s: &[u8], a: usize, b: usize) -> bool {
     x.as_ptr() == s[a..].as_ptr() && x.len() == b - a
 }
 
+/// Step contract: one `next()` from ANY iterator state (any remaining text of <= N bytes,
+/// `first` either way).  Lists of any number of entries follow by induction on the remaining text.
 macro_rules! channel_list_harness {
     ($name:ident, $n:expr, $unwind:expr) => {
         #[kani::proof]
         #[kani::unwind($unwind)]
         #[kani::stub(lexical_core::parse_partial, stub_parse_partial)]
         pub fn $name() {
-            let mut text = [0u8; $n + 1];
-            text[0] = b'@';
             let body: [u8; $n] = kani::any();
             let n: usize = kani::any();
             kani::assume(n <= $n);
-            let mut i = 0;
-            while i < $n {
-                text[1 + i] = body[i];
-                i += 1;
-            }
-            let s = &text[..1 + n];
-            let mut l = ChannelList::new(s).unwrap();
-            let body_s = &s[1..];
-            let mut pos = 0usize;
-            let mut first = true;
-            let mut k = 0;
-            kani::cover!(n == $n && body[1] == b':' && body[3] == b',');
-            while k < 3 {
-                let st = ref_channel_step(body_s, pos, first);
-                let before = l.chars.as_slice().len();
-                let got = l.next();
-                match st.kind {
-                    4 => {
-                        assert!(got.is_none(), "C19/ChannelList::next/ends-when-the-text-is-exhausted");
-                        break;
-                    }
-                    3 => {
-                        assert!(matches!(got, Some(Err(_))), "C19/ChannelList::next/error-at-the-first-offending-position");
-                        break;
-                    }
-                    0 => {
-                        assert!(match &got { Some(Ok(channel_list::Token::ChannelSpec(sp))) => {
-                            let mut bangs = 0; let mut j = st.a; while j < st.b { if body_s[j] == b'!' { bangs += 1; } j += 1; } sp.dimension() == bangs + 1 }, _ => false },
-                            "C19/ChannelList::next/single-spec-with-its-dimension-count");
-                    }
-                    1 => {
-                        assert!(match &got { Some(Ok(channel_list::Token::ChannelRange(p, q))) => p.dimension() == q.dimension(), _ => false },
-                            "C19/ChannelList::next/range-with-both-ends-of-equal-dimension");
-                    }
-                    _ => {
-                        assert!(match &got { Some(Ok(channel_list::Token::PathName(p))) => span_is(p, body_s, st.a, st.b), _ => false },
-                            "C19/ChannelList::next/quoted-path-name-with-its-exact-content");
-                    }
+            let body_s = &body[..n];
+            let first: bool = kani::any();
+            let mut l = ChannelList { chars: body_s.iter(), first };
+            kani::cover!(n == $n && body[1] == b':' && !first);
+            kani::cover!(n >= 3 && body[0] == b',' && body[1] == b'\'');
+            let st = ref_channel_step(body_s, 0, first);
+            let got = l.next();
+            match st.kind {
+                4 => assert!(got.is_none(), "C19/ChannelList::next/ends-when-the-text-is-exhausted"),
+                3 => assert!(matches!(got, Some(Err(_))), "C19/ChannelList::next/error-at-the-first-offending-position"),
+                0 => {
+                    assert!(match &got { Some(Ok(channel_list::Token::ChannelSpec(sp))) => {
+                        let mut bangs = 0; let mut j = st.a; while j < st.b { if body_s[j] == b'!' { bangs += 1; } j += 1; } sp.dimension() == bangs + 1 }, _ => false },
+                        "C19/ChannelList::next/single-spec-with-its-dimension-count");
                 }
+                1 => {
+                    assert!(match &got { Some(Ok(channel_list::Token::ChannelRange(p, q))) => p.dimension() == q.dimension(), _ => false },
+                        "C19/ChannelList::next/range-with-both-ends-of-equal-dimension");
+                }
+                _ => {
+                    assert!(match &got { Some(Ok(channel_list::Token::PathName(p))) => span_is(p, body_s, st.a, st.b), _ => false },
+                        "C19/ChannelList::next/quoted-path-name-with-its-exact-content");
+                }
+            }
+            if st.kind <= 2 {
                 assert!(l.chars.as_slice().len() == body_s.len() - st.next, "C19/ChannelList::next/cursor-advances-past-exactly-this-entry");
-                assert!(l.chars.as_slice().len() < before, "C19/ChannelList::next/an-entry-consumes-input");
-                pos = st.next;
-                first = false;
-                k += 1;
+                assert!(l.chars.as_slice().len() < body_s.len(), "C19/ChannelList::next/an-entry-consumes-input");
+                assert!(!l.first, "C19/ChannelList::next/later-entries-need-a-separator");
             }
         }
     };
 }
-channel_list_harness!(channel_list_n5, 5, 9);
-channel_list_harness!(channel_list_n7, 7, 11);
+channel_list_harness!(channel_list_n4, 4, 7);
+channel_list_harness!(channel_list_n6, 6, 9);
+
+/// `ChannelList::new` accepts exactly expressions that start with `@`.
+#[kani::proof]
+#[kani::unwind(4)]
+pub fn channel_list_new() {
+    let body: [u8; 2] = kani::any();
+    let s = any_prefix(&body);
+    match ChannelList::new(s) {
+        Some(l) => assert!(s.len() >= 1 && s[0] == b'@' && l.first && l.chars.as_slice().len() == s.len() - 1, "C19/ChannelList::new/starts-after-the-@"),
+        None => assert!(s.is_empty() || s[0] != b'@', "C19/ChannelList::new/only-@-expressions-are-channel-lists"),
+    }
+}
 
 // ---------------------------------------------------------------- numeric lists
 /// IEEE 488.2 7.7.2 NRf at `pos`: returns end position or None if malformed.
@@ -378,6 +374,7 @@ fn num_is(t: &Token, s: &[u8], a: usize, b: usize) -> bool {
     }
 }
 
+/// Step contract: one `next()` from ANY iterator state.
 macro_rules! numeric_list_harness {
     ($name:ident, $n:expr, $unwind:expr) => {
         #[kani::proof]
@@ -385,35 +382,26 @@ macro_rules! numeric_list_harness {
         pub fn $name() {
             let body: [u8; $n] = kani::any();
             let s = any_prefix(&body);
+            let first: bool = kani::any();
             let mut l = NumericList::new(s);
-            let mut pos = 0usize;
-            let mut first = true;
-            let mut k = 0;
-            kani::cover!(s.len() == $n && s[1] == b',' && s[3] == b':');
-            kani::cover!(s.len() >= 3 && s[0] == b'1' && s[1] == b'-' && s[2] == b'2');
-            kani::cover!(s.len() >= 2 && s[0] == b'.' && s[1] == b'5');
-            while k < 3 {
-                let st = ref_numeric_step(s, pos, first);
-                let got = l.next();
-                match st.kind {
-                    4 => {
-                        assert!(got.is_none(), "C19/NumericList::next/ends-when-the-text-is-exhausted");
-                        break;
-                    }
-                    3 => {
-                        assert!(matches!(got, Some(Err(_))), "C19/NumericList::next/missing-separator-leading-or-doubled-comma-third-range-end-or-foreign-character-is-an-error");
-                        break;
-                    }
-                    0 => assert!(match &got { Some(Ok(numeric_list::Token::Numeric(t))) => num_is(t, s, st.a, st.b), _ => false }, "C19/NumericList::next/single-value-with-its-exact-text"),
-                    _ => assert!(match &got { Some(Ok(numeric_list::Token::NumericRange(t, u))) => num_is(t, s, st.a, st.b) && num_is(u, s, st.c, st.d), _ => false }, "C19/NumericList::next/range-with-both-ends"),
-                }
+            l.first = first;
+            kani::cover!(s.len() == $n && !first && s[0] == b',' && s[2] == b':');
+            kani::cover!(s.len() >= 2 && !first && s[0] == b'-' && s[1] == b'2');
+            kani::cover!(s.len() >= 2 && first && s[0] == b'.' && s[1] == b'5');
+            let st = ref_numeric_step(s, 0, first);
+            let got = l.next();
+            match st.kind {
+                4 => assert!(got.is_none(), "C19/NumericList::next/ends-when-the-text-is-exhausted"),
+                3 => assert!(matches!(got, Some(Err(_))), "C19/NumericList::next/missing-separator-leading-or-doubled-comma-third-range-end-or-foreign-character-is-an-error"),
+                0 => assert!(match &got { Some(Ok(numeric_list::Token::Numeric(t))) => num_is(t, s, st.a, st.b), _ => false }, "C19/NumericList::next/single-value-with-its-exact-text"),
+                _ => assert!(match &got { Some(Ok(numeric_list::Token::NumericRange(t, u))) => num_is(t, s, st.a, st.b) && num_is(u, s, st.c, st.d), _ => false }, "C19/NumericList::next/range-with-both-ends"),
+            }
+            if st.kind <= 1 {
                 assert!(l.tokenizer.chars.as_slice().len() == s.len() - st.next, "C19/NumericList::next/cursor-advances-past-exactly-this-entry");
-                pos = st.next;
-                first = false;
-                k += 1;
+                assert!(!l.first, "C19/NumericList::next/later-entries-need-a-separator");
             }
         }
     };
 }
-numeric_list_harness!(numeric_list_n5, 5, 9);
-numeric_list_harness!(numeric_list_n7, 7, 11);
+numeric_list_harness!(numeric_list_n4, 4, 7);
+numeric_list_harness!(numeric_list_n6, 6, 9);
